@@ -922,38 +922,94 @@ func (w *World) losslessElementwise(f *ssa.Function, perElem func(ssa.Instructio
 	if param == nil {
 		return false, "no slice parameter"
 	}
-	ranged, work, nIf := false, false, 0
+	ranged := false
 	why := ""
+	var hdr *ssa.BasicBlock
+	var workBlocks []*ssa.BasicBlock
+	noteRange := func(idx ssa.Value) {
+		if !isRangeIndex(idx, param) {
+			return
+		}
+		ranged = true
+		// the loop test: idx < len(param) feeding an If
+		if bo, ok := idx.(*ssa.BinOp); ok && bo.Referrers() != nil {
+			for _, r := range *bo.Referrers() {
+				if cmp, ok := r.(*ssa.BinOp); ok && cmp.Op == token.LSS && cmp.Referrers() != nil {
+					for _, r2 := range *cmp.Referrers() {
+						if ifi, ok := r2.(*ssa.If); ok {
+							hdr = ifi.Block()
+						}
+					}
+				}
+			}
+		}
+	}
 	eachInstr([]*ssa.Function{f}, func(_ *ssa.Function, ins ssa.Instruction) {
 		switch x := ins.(type) {
 		case *ssa.Slice:
 			if x.X == ssa.Value(param) {
 				why = "reslices its input (" + w.TS.Of(x).String() + "): elements beyond the window are dropped"
 			}
-		case *ssa.If:
-			nIf++
 		case *ssa.IndexAddr:
-			if x.X == ssa.Value(param) && isRangeIndex(x.Index, param) {
-				ranged = true
+			if x.X == ssa.Value(param) {
+				noteRange(x.Index)
 			}
 		case *ssa.Index:
-			if x.X == ssa.Value(param) && isRangeIndex(x.Index, param) {
-				ranged = true
+			if x.X == ssa.Value(param) {
+				noteRange(x.Index)
 			}
 		}
 		if perElem(ins) {
-			work = true
+			workBlocks = append(workBlocks, ins.Block())
+		}
+		// filling slot i of make(T, len(input)) while ranging over the input is a per-element step too
+		if ia, ok := ins.(*ssa.IndexAddr); ok {
+			if mk, isMk := ia.X.(*ssa.MakeSlice); isMk && isRangeIndex(ia.Index, param) {
+				if lc, isCall := mk.Len.(*ssa.Call); isCall {
+					if bi, isB := lc.Call.Value.(*ssa.Builtin); isB && bi.Name() == "len" && len(lc.Call.Args) == 1 && lc.Call.Args[0] == ssa.Value(param) {
+						workBlocks = append(workBlocks, ins.Block())
+					}
+				}
+			}
 		}
 	})
 	switch {
 	case why != "":
 		return false, why
-	case !ranged:
+	case !ranged || hdr == nil || len(hdr.Succs) != 2:
 		return false, "does not range over the whole of its input"
-	case nIf != 1:
-		return false, fmt.Sprintf("%d branches besides the loop test: some elements can be skipped", nIf-1)
-	case !work:
+	case len(workBlocks) == 0:
 		return false, "no per-element work found in the loop"
+	}
+	body, exit := hdr.Succs[0], hdr.Succs[1]
+	// the per-element step is taken on every iteration: it dominates every back edge
+	for _, p := range hdr.Preds {
+		if !body.Dominates(p) {
+			continue // entry edge
+		}
+		dom := false
+		for _, wb := range workBlocks {
+			if wb.Dominates(p) {
+				dom = true
+			}
+		}
+		if !dom {
+			return false, "an iteration can go round without the per-element step: some elements can be skipped"
+		}
+	}
+	// and the loop is left only by running out of elements
+	for _, p := range exit.Preds {
+		if p != hdr && body.Dominates(p) {
+			return false, "can break out of the loop before the input is used up"
+		}
+	}
+	for _, b := range f.Blocks {
+		if len(b.Instrs) == 0 || (f.Recover != nil && (b == f.Recover || f.Recover.Dominates(b))) {
+			continue
+		}
+		if _, isRet := b.Instrs[len(b.Instrs)-1].(*ssa.Return); isRet && !exit.Dominates(b) {
+			return false, "can return from inside the loop, before the input is used up"
+		}
 	}
 	return true, "ranges over its input, one unconditional step per element"
 }
